@@ -35,8 +35,10 @@ VARIABLES files,      \* set of file kinds present on disk
           delBegun,   \* a deletion step has changed the disk
           status,     \* "Up" | "Down" | "Fatal"
           served,     \* what a reader gets: "none" | "active" | "sealed"
-          crashes, hist
-vars == <<files, bad, pc, hasData, delBegun, status, served, crashes, hist>>
+          crashes, hist,
+          rel         \* Active.Release after the publication runs beside whatever follows (proxyFrac.Seal signals
+                      \* sealWg before it calls Release, so a waiting deletion may overtake it): "none"|"r0"|"r1"|"done"
+vars == <<files, bad, pc, hasData, delBegun, status, served, crashes, hist, rel>>
 
 Kinds == {"docs", "meta", "sdocsTmp", "sdocs", "indexTmp", "index", "docsDel", "sdocsDel", "indexDel"}
 
@@ -44,54 +46,55 @@ H(op) == hist' = Append(hist, op)
 Up == status = "Up"
 
 Init == /\ files = {} /\ bad = {} /\ pc = "none" /\ hasData = FALSE /\ delBegun = FALSE
-        /\ status = "Up" /\ served = "none" /\ crashes = 0 /\ hist = <<>>
+        /\ status = "Up" /\ served = "none" /\ crashes = 0 /\ hist = <<>> /\ rel = "none"
 
 Step(from, to, op) == Up /\ pc = from /\ pc' = to /\ H(op)
 Keep(vs) == UNCHANGED vs
 
 \* ---- creation and ingest
 CreateDocs == Step("none", "c1", "createDocs") /\ files' = files \cup {"docs"}
-              /\ Keep(<<bad, hasData, delBegun, status, served, crashes>>)
+              /\ Keep(<<rel, bad, hasData, delBegun, status, served, crashes>>)
 CreateMeta == Step("c1", "active", "createMeta") /\ files' = files \cup {"meta"} /\ served' = "active"
-              /\ Keep(<<bad, hasData, delBegun, status, crashes>>)
+              /\ Keep(<<rel, bad, hasData, delBegun, status, crashes>>)
 Ingest == /\ Up /\ pc = "active" /\ ~hasData /\ hasData' = TRUE /\ H("ingest")
-          /\ Keep(<<files, bad, pc, delBegun, status, served, crashes>>)
+          /\ Keep(<<rel, files, bad, pc, delBegun, status, served, crashes>>)
 
 \* ---- sealing (only a fraction with data is sealed). Order as in frac.Seal: the ._index file is
 \* created first, then (unless SkipSortDocs) the sorted docs are written, synced and renamed, then
 \* the index is written, synced and renamed.
 IndexCreate == Step("active", IF SkipSortDocs THEN "s4" ELSE "s1", "indexCreate") /\ hasData
                /\ files' = files \cup {"indexTmp"} /\ bad' = bad \cup {"indexTmp"}
-               /\ Keep(<<hasData, delBegun, status, served, crashes>>)
+               /\ Keep(<<rel, hasData, delBegun, status, served, crashes>>)
 SdocsCreate == Step("s1", "s2", "sdocsCreate") /\ files' = files \cup {"sdocsTmp"} /\ bad' = bad \cup {"sdocsTmp"}
-               /\ Keep(<<hasData, delBegun, status, served, crashes>>)
+               /\ Keep(<<rel, hasData, delBegun, status, served, crashes>>)
 SdocsWrite == Step("s2", "s3", "sdocsWrite") /\ bad' = bad \ {"sdocsTmp"}
-              /\ Keep(<<files, hasData, delBegun, status, served, crashes>>)
+              /\ Keep(<<rel, files, hasData, delBegun, status, served, crashes>>)
 SdocsRename == Step("s3", "s4", "sdocsRename") /\ files' = (files \ {"sdocsTmp"}) \cup {"sdocs"}
-               /\ Keep(<<bad, hasData, delBegun, status, served, crashes>>)
+               /\ Keep(<<rel, bad, hasData, delBegun, status, served, crashes>>)
 IndexWrite == Step("s4", "s5", "indexWrite") /\ bad' = bad \ {"indexTmp"}
-              /\ Keep(<<files, hasData, delBegun, status, served, crashes>>)
+              /\ Keep(<<rel, files, hasData, delBegun, status, served, crashes>>)
 \* a write of the index output fails: the seal must stop here (the store then dies: logger.Fatal
 \* "sealing error"); with swallowed errors the truncated index goes on to be renamed and published
 IndexWriteFault == /\ Up /\ pc = "s4" /\ crashes < MaxCrash /\ H("indexWriteFault")
                    /\ IF ErrProp THEN (pc' = "sealFailed" /\ status' = "Down" /\ crashes' = crashes + 1 /\ served' = "none")
-                                 ELSE (pc' = "s5" /\ Keep(<<status, crashes, served>>))
-                   /\ Keep(<<files, bad, hasData, delBegun>>)
+                                 ELSE (pc' = "s5" /\ Keep(<<rel, status, crashes, served>>))
+                   /\ Keep(<<rel, files, bad, hasData, delBegun>>)
 IndexRename == Step("s5", "s6", "indexRename") /\ files' = (files \ {"indexTmp"}) \cup {"index"}
                /\ bad' = (bad \ {"indexTmp"}) \cup (IF "indexTmp" \in bad THEN {"index"} ELSE {})
-               /\ Keep(<<hasData, delBegun, status, served, crashes>>)
-SealSyncDir == Step("s6", "s7", "dirSync") /\ Keep(<<files, bad, hasData, delBegun, status, served, crashes>>)
-Publish == Step("s7", "r0", "publish") /\ served' = "sealed"
+               /\ Keep(<<rel, hasData, delBegun, status, served, crashes>>)
+SealSyncDir == Step("s6", "s7", "dirSync") /\ Keep(<<rel, files, bad, hasData, delBegun, status, served, crashes>>)
+Publish == Step("s7", "sealed", "publish") /\ served' = "sealed" /\ rel' = "r0"
            /\ Keep(<<files, bad, hasData, delBegun, status, crashes>>)
 \* Active.Release: .meta is removed; .docs only when sorted docs were written
-ReleaseMeta == Step("r0", IF SkipSortDocs THEN "sealed" ELSE "r1", "releaseRemoveMeta") /\ files' = files \ {"meta"}
-               /\ Keep(<<bad, hasData, delBegun, status, served, crashes>>)
-ReleaseDocs == Step("r1", "sealed", "releaseRemoveDocs") /\ files' = files \ {"docs"}
-               /\ Keep(<<bad, hasData, delBegun, status, served, crashes>>)
+ReleaseMeta == /\ Up /\ rel = "r0" /\ rel' = (IF SkipSortDocs THEN "done" ELSE "r1") /\ H("releaseRemoveMeta")
+               /\ files' = files \ {"meta"}
+               /\ Keep(<<pc, bad, hasData, delBegun, status, served, crashes>>)
+ReleaseDocs == /\ Up /\ rel = "r1" /\ rel' = "done" /\ H("releaseRemoveDocs") /\ files' = files \ {"docs"}
+               /\ Keep(<<pc, bad, hasData, delBegun, status, served, crashes>>)
 
 \* ---- deletion of a sealed fraction (retention)
 Del(from, to, op, f2) == Step(from, to, op) /\ files' = f2 /\ delBegun' = (delBegun \/ f2 # files) /\ served' = "none"
-                         /\ Keep(<<bad, hasData, status, crashes>>)
+                         /\ Keep(<<rel, bad, hasData, status, crashes>>)
 Ren(a, b) == IF a \in files THEN (files \ {a}) \cup {b} ELSE files
 SDel1 == Del("sealed", "d1", "renameDocsDel", Ren("docs", "docsDel"))
 SDel2 == Del("d1", "d2", "renameSdocsDel", Ren("sdocs", "sdocsDel"))
@@ -109,7 +112,7 @@ ADel2 == Del("a1", "gone", "activeRemoveDocs", files \ {"docs", "docsDel"})
 \* ---- crash and restart
 Crash == /\ Up /\ crashes < MaxCrash /\ pc \notin {"none", "gone"}
          /\ status' = "Down" /\ crashes' = crashes + 1 /\ served' = "none" /\ H("crash")
-         /\ Keep(<<files, bad, pc, hasData, delBegun>>)
+         /\ Keep(<<rel, files, bad, pc, hasData, delBegun>>)
 
 \* fracmanager/loader.go: decision for one fraction's file set F
 Loader(F) ==
@@ -138,7 +141,7 @@ Restart ==
                              THEN /\ status' = "Up" /\ pc' = "active" /\ served' = "active" /\ Keep(<<files, bad>>)
                              ELSE /\ status' = "Up" /\ pc' = "gone" /\ served' = "none" /\ bad' = bad \cap {"sdocsTmp", "indexTmp"}
                                   /\ files' = files \cap {"sdocsTmp", "indexTmp"}
-  /\ H("restart") /\ Keep(<<hasData, delBegun, crashes>>)
+  /\ H("restart") /\ rel' = "none" /\ Keep(<<hasData, delBegun, crashes>>)
 
 Next == \/ CreateDocs \/ CreateMeta \/ Ingest \/ SdocsCreate \/ SdocsWrite \/ SdocsRename
         \/ IndexCreate \/ IndexWrite \/ IndexWriteFault \/ IndexRename \/ SealSyncDir \/ Publish \/ ReleaseMeta \/ ReleaseDocs
@@ -161,7 +164,7 @@ OriginalsOutliveSeal == (hasData /\ ~delBegun /\ pc \notin {"none", "gone", "sea
    \/ {"docs", "meta"} \subseteq files
    \/ ("index" \in files /\ "index" \notin bad /\ ({"sdocs", "docs"} \cap files # {}))
 
-View == <<files, bad, pc, hasData, delBegun, status, served, crashes>>
+View == <<files, bad, pc, hasData, delBegun, status, served, crashes, rel>>
 \* every crash state, with what the loader must do with it, for the replay on the real loader
 \* the files the loader must leave behind (what Restart does to `files`)
 Tmp == {"sdocsTmp", "indexTmp"}
